@@ -796,7 +796,9 @@ func reMatchesAnyKeyInPath(keyPath *[]string, pattern *regexp.Regexp) bool {
 		return false
 	}
 	for _, key := range *keyPath {
-		if pattern.MatchString(key) {
+		// only field names count: an operator or extended-JSON wrapper on the path ($in, $eq, $date ...)
+		// must not make an unanchored pattern such as 'in' or 'date' match
+		if isFieldNameKey(key) && pattern.MatchString(key) {
 			return true
 		}
 	}
